@@ -22,7 +22,7 @@ def run(tier, seed, pid='C16', pack=None):
                 'reasoning only)', 'not decided: numeric agreement across back ends, bit-identical reruns, numba')
     items = [(S.suitesparse_solve(pid, 'umfpack'), None, S.replay_solvers), (S.suitesparse_solve(pid, 'klu'), None, S.replay_solvers), (S.suitesparse_linsolve(pid, 'KLUSolver', 'klu'),),
              (S.suitesparse_linsolve(pid, 'UMFPACKSolver', 'umfpack'),), (S.spsolve_solve(pid), None, S.replay_solvers), (S.refresh_symbolic(pid),), (S.spmatrix_to_csc(pid),),
-             (S.solver_dispatch(pid, 'solve'),), (S.solver_dispatch(pid, 'linsolve'),)]
+             (S.solver_dispatch(pid, 'solve'), None, S.replay_dispatch), (S.solver_dispatch(pid, 'linsolve'), None, S.replay_dispatch)]
     run_contracts(pack, items)
     if own:
         return pack.finish()
